@@ -272,7 +272,9 @@ def run_ref(case, arrays):
         if not A.get("training", True): return xa.copy()
         p = A.get("p", 0.5)
         u = np.array(A["u"][: xa.size], dtype=np.float64).reshape(xa.shape)
-        keep = (u > p).astype(np.float64)
+        # the statement fixes the distribution, not the rule that turns a uniform draw into the decision:
+        # convention "A" keeps where u > p, convention "B" keeps where u < 1 - p (C06 accepts either)
+        keep = ((u > p) if A.get("conv", "A") == "A" else (u < 1 - p)).astype(np.float64)
         return xa * keep / (1 - p) if p < 1 else xa * 0.0
     if op == "flatten_layer":
         return t.flatten(x, A.get("start_dim", 1), A.get("end_dim", -1)).numpy()
@@ -492,7 +494,7 @@ def cases(tier, what="forward"):
         for mask in itertools.product((0, 1), repeat=3):
             if p == 0.0: u = [0.25 + 0.5 * m for m in mask]
             elif p == 1.0: u = [0.25 + 0.5 * m for m in mask]
-            else: u = [(p + (1 - p) / 2) if m else p / 2 for m in mask]
+            else: u = [((max(p, 1 - p) + 1) / 2) if m else min(p, 1 - p) / 2 for m in mask]     # beyond both thresholds p and 1-p
             add("dropout", [(3,)], {"p": p, "u": u, "training": True})
         add("dropout", [(2, 2)], {"p": p, "u": [0.9, 0.1, 0.6, 0.2], "training": True})
         add("dropout", [(3,)], {"p": p, "u": [0.1, 0.1, 0.1], "training": False})
